@@ -24,14 +24,21 @@ const PAYLOAD_BUDGET: usize = 1 << 20;
 /// Payload
 ///
 /// The memory a value holds outside of its own vcell, in units of one vcell.
-/// A vector, string, saved stack, bytecode vector or bignum occupies a single
-/// vcell however large it is.
+/// A vector, string, saved stack, procedure, environment, symbol or bignum occupies a
+/// single vcell however large it is.
 fn payload(vcell: &VCell) -> usize {
     match vcell {
         VCell::Vector(vector) => vector.len(),
         VCell::String(s) => s.borrow().len() / std::mem::size_of::<VCell>(),
         VCell::Continuation(cont) => cont.stack().len(),
-        VCell::Lambda(lambda) => lambda.bc.len(),
+        VCell::Lambda(lambda) => lambda
+            .bc
+            .len()
+            .saturating_add(lambda.args.len())
+            .saturating_add(lambda.envmap.get_map().len()),
+        VCell::LexicalEnv(env) => env.slot_len(),
+        // the name, and the copy of it that is the key of the symbol table
+        VCell::Symbol(name) => (name.len() / std::mem::size_of::<VCell>()).saturating_mul(2),
         VCell::Number(Number::BigInt(num)) => {
             (num.bits() / 8).to_usize().unwrap_or(usize::MAX) / std::mem::size_of::<VCell>()
         }
@@ -125,6 +132,7 @@ impl Heap {
                 Some(ptr) => VCell::ptr(*ptr),
                 None => {
                     let ptr = self.alloc();
+                    self.payload = self.payload.saturating_add(payload(&vcell));
                     *self.heap.get_mut(ptr).expect("heap index is out of bounds") = vcell.clone();
                     self.symbol_table.insert(sym.deref().into(), ptr);
                     VCell::ptr(ptr)
@@ -161,6 +169,7 @@ impl Heap {
                 Some(ptr) => VCell::ptr(*ptr),
                 None => {
                     let ptr = self.alloc();
+                    self.payload = self.payload.saturating_add(payload(&vcell));
                     *self.heap.get_mut(ptr).expect("heap index is out of bounds") = vcell.clone();
                     self.symbol_table.insert(sym.deref().into(), ptr);
                     VCell::ptr(ptr)
